@@ -58,8 +58,11 @@ fn verif_sort_freq(v: &mut Vec<(usize, u32)>)
 //@after 1 table[c] ={
     proof {
         let s = sorted@;
-        assert forall|j: int| 0 <= j < i0 + 1 implies table@[(#[trigger] s[j]).0 as int] == j by {
-            if j < i0 { assert(s[j].0 != s[i0].0); }
+        // guarded: if the entry written is not (character i0 -> code i0) the loop invariant (not this hint) is what fails
+        if table@ == t_b.update(s[i0].0 as int, i0 as u32) {
+            assert forall|j: int| 0 <= j < i0 + 1 implies table@[(#[trigger] s[j]).0 as int] == j by {
+                if j < i0 { assert(s[j].0 != s[i0].0); }
+            }
         }
         assert forall|cc: int| 0 <= cc < fr.len() && !(exists|j: int| 0 <= j < i0 + 1 && (#[trigger] s[j]).0 == cc) implies #[trigger] table@[cc] == u32::MAX by {
             assert(cc != s[i0].0);
